@@ -20,7 +20,10 @@
 //	D:<hexprefix>              mount the SAME app object as the preceding M block once more, at this prefix
 //	                           (group composition: a second group with the same registrations)
 //
-// hs    : handler ids joined by '.', each `<id>n` (calls Next) or `<id>s` (sends "h<id>")
+// hs    : handler ids joined by '.', each `<id>n` (calls Next), `<id>s` (sends "h<id>") or `<id>e`
+//
+//	(returns a 418 error: the reply is written by the ErrorHandler fiber selects for the path)
+//
 // ptable: `hexpath=hexname.hexname` joined by ',' — Params of that path as an independent
 //
 //	registration on a scratch app reports them (the parser is opaque to C04)
@@ -49,6 +52,7 @@ var methods = fiber.DefaultMethods // GET HEAD POST PUT DELETE CONNECT OPTIONS T
 type hnd struct {
 	id   int
 	stop bool
+	err  bool // returns an error (418) instead of replying: the reply is written by the ErrorHandler
 }
 
 type item struct {
@@ -72,6 +76,9 @@ func encHs(hs []hnd) string {
 		c := "n"
 		if h.stop {
 			c = "s"
+		}
+		if h.err {
+			c = "e"
 		}
 		p[i] = strconv.Itoa(h.id) + c
 	}
@@ -134,10 +141,10 @@ func decHs(s string) []hnd {
 			panic("bad handler " + p)
 		}
 		id, err := strconv.Atoi(p[:len(p)-1])
-		if err != nil || (p[len(p)-1] != 'n' && p[len(p)-1] != 's') {
+		if err != nil || (p[len(p)-1] != 'n' && p[len(p)-1] != 's' && p[len(p)-1] != 'e') {
 			panic("bad handler " + p)
 		}
-		out = append(out, hnd{id, p[len(p)-1] == 's'})
+		out = append(out, hnd{id: id, stop: p[len(p)-1] == 's', err: p[len(p)-1] == 'e'})
 	}
 	return out
 }
@@ -237,6 +244,11 @@ func mkHandler(h hnd, tr *rec) fiber.Handler {
 			ent += "{" + strings.Join(ws, "&") + "}"
 		}
 		tr.trace = append(tr.trace, ent)
+		if h.err {
+			// the reply comes from App.ErrorHandler, which picks the handler of the sub-app mounted at
+			// the longest matching prefix (all apps here carry the default one)
+			return fiber.NewError(fiber.StatusTeapot, "e"+strconv.Itoa(h.id))
+		}
 		if h.stop {
 			return c.SendString("h" + strconv.Itoa(h.id))
 		}
@@ -515,7 +527,7 @@ func emit(w *gen.Writer, id string, cs, strict bool, items []item, reqs []reqIn)
 
 // ---------------------------------------------------------------- generator
 
-var prefixes = []string{"/api", "/api", "/v1", "/", "", "/api/", "api", "/API", "/:tenant", "/:Tenant", "/a/b",
+var prefixes = []string{"/api", "/api", "/v1", "/", "", "/api/", "api", "/API", "/:tenant", "/:Tenant", "/a/b", "/v1//", "//",
 	"/x-y", `/a\:b`, "/:org/p", "/V1/", "/api/v1", "/:id", "/u/:uid",
 	// unnamed wildcards in a prefix: their keys (*1, *2, +1, …) are numbered over the FULL path
 	"/zone/*/admin", "/w/*", "/p/+", "/+/x", "/f/*/:id", "/*"}
@@ -539,7 +551,12 @@ func (g *genCtx) hs(n int, lastStops bool) []hnd {
 		out[i] = hnd{id: g.nextID}
 	}
 	if lastStops {
-		out[n-1].stop = true
+		if g.r.Chance(1, 10) {
+			out[n-1].err = true
+			g.w.Count("error-handler-reply")
+		} else {
+			out[n-1].stop = true
+		}
 	}
 	return out
 }
@@ -577,6 +594,19 @@ func (g *genCtx) items(depth int, ctxPrefix string, inMount bool, budget *int) [
 			g.patterns = append(g.patterns, join(ctxPrefix, p))
 			if r.Chance(1, 6) { // same path again right away: merge candidate
 				out = append(out, item{kind: 'R', ms: ms[:1], path: p, hs: g.hs(1, r.Bool())})
+			}
+			if (p == "" || p == "/") && r.Chance(1, 2) {
+				// "" next to "/": one route for the app itself, two once it is mounted (addRoute must
+				// not merge them); sometimes a third registration that may merge with the second
+				q := "/"
+				if p == "/" {
+					q = ""
+				}
+				out = append(out, item{kind: 'R', ms: ms[:1], path: q, hs: g.hs(1, r.Bool())})
+				if r.Chance(1, 3) {
+					out = append(out, item{kind: 'R', ms: ms[:1], path: gen.Pick(r, []string{"", "/"}), hs: g.hs(1, r.Bool())})
+				}
+				g.w.Count("empty-next-to-slash")
 			}
 		case k < 11: // middleware
 			p := ""
